@@ -639,3 +639,31 @@ package xpath
 //@   ensures implies(c == '<' && old(nextRune(x)) == '=', result0 == xutils.LE) && implies(c == '<' && old(nextRune(x)) != '=' && old(nextRune(x)) != -2, result0 == xutils.LT && x.peek == old(nextRune(x)))
 //@   ensures implies(c == '!' && old(nextRune(x)) == '=', result0 == xutils.NE) && implies(c == '!' && old(nextRune(x)) != '=' && old(nextRune(x)) != -2, result0 == xutils.ERR && x.err != nil)
 //@   ensures implies(c != '=' && c != '>' && c != '<' && c != '!', result0 == xutils.ERR && x.err != nil)
+
+// ---------------------------------------------------------------------------
+// Look-ahead past whitespace (C03, C04): NextNonWhitespaceStringIs(e) answers whether the unread input
+// (x.peek, if any, followed by x.line), after skipping ALL XPath whitespace (#x20 #x9 #xD #xA), starts with e.
+//@ define wsb(b) = b == 9 || b == 10 || b == 13 || b == 32
+//@ define nextAt(l0, c, lc, line) = (c == len(l0) && lc == xutils.EOF) ||
+//@        (c < len(l0) && l0[c] < 128 && lc == l0[c] && len(line) == len(l0)-c-1 && sameArray(line, l0) && off(line) == off(l0)+c+1) ||
+//@        (c < len(l0) && l0[c] >= 128 && lc >= 128)
+//@ define asciiAt(l0, c, lc, line) = 0 <= c && c < len(l0) && l0[c] == lc && len(line) == len(l0)-c-1 && sameArray(line, l0) && off(line) == off(l0)+c+1
+//@ define skipTo(l0, c) = 0 <= c && c <= len(l0) && forall(i, 0, c, wsb(l0[i])) && (c == len(l0) || !wsb(l0[c]))
+//@ define matchAt(l0, c, e) = len(e) <= 2 && implies(len(e) >= 1, c < len(l0) && l0[c] == e[0]) && implies(len(e) >= 2, c+1 < len(l0) && l0[c+1] == e[1])
+//@ define lineStarts(l0, e) = exists(c, 0, len(l0)+1, skipTo(l0, c) && matchAt(l0, c, e))
+//@ define matched(l0, c, e, p) = implies(p >= 1, l0[c] == e[0]) && implies(p >= 2, l0[c+1] == e[1])
+//@ func next
+//@   nopanic
+//@   ensures nextAt(line, 0, result0, result1) && result0 >= 0
+//@ func (*CommonLex).NextNonWhitespaceStringIs
+//@   requires x != nil && (expr == "(" || expr == "::" || expr == ":" || expr == "*")
+//@   nopanic
+//@   ensures implies(x.peek == xutils.EOF || wsb(x.peek), result == lineStarts(x.line, expr))
+//@   ensures implies(!(x.peek == xutils.EOF || wsb(x.peek)), result == (x.peek == expr[0] && (len(expr) == 1 || lineStarts(x.line, expr[1:]))))
+//@   loop 0 invariant lc >= 0 && implies(1 <= lc && lc < 128, asciiAt(x.line, len(x.line)-len(line)-1, lc, line) && forall(i, 0, len(x.line)-len(line)-1, wsb(x.line[i])))
+//@   loop 0 invariant implies(lc >= 128, exists(c, 0, len(x.line), forall(i, 0, c, wsb(x.line[i])) && x.line[c] >= 128))
+//@   loop 0 invariant implies(lc == 0, forall(i, 0, len(x.line), wsb(x.line[i])) || exists(c, 0, len(x.line), forall(i, 0, c, wsb(x.line[i])) && x.line[c] == 0))
+//@   loop 1 invariant lc >= 0 && 0 <= looppos && looppos <= len(expr) && (expr == "(" || expr == "::" || expr == ":" || expr == "*")
+//@   loop 1 invariant implies(1 <= lc && lc < 128, asciiAt(x.line, len(x.line)-len(line)-1, lc, line) && skipTo(x.line, len(x.line)-len(line)-1-looppos) && matched(x.line, len(x.line)-len(line)-1-looppos, expr, looppos))
+//@   loop 1 invariant implies(lc >= 128, exists(c, 0, len(x.line), skipTo(x.line, c) && c+looppos < len(x.line) && x.line[c+looppos] >= 128 && matched(x.line, c, expr, looppos)))
+//@   loop 1 invariant implies(lc == 0, exists(c, 0, len(x.line)+1, skipTo(x.line, c) && (c+looppos == len(x.line) || (c+looppos < len(x.line) && x.line[c+looppos] == 0)) && matched(x.line, c, expr, looppos)))
